@@ -8,7 +8,7 @@ for d in sorted(glob.glob('/verif/seeded/*')):
     if name in first:
         continue
     m = json.load(open(d + '/meta.json'))
-    rows.append("| %s | %s | %s | %s |" % (name, m['property'], m['needs_to_manifest'].replace('|', '/'), m['detected_by'].replace('|', '/')))
+    rows.append("| %s | %s | %s | %s |" % (name, m['property'], m['needs_to_manifest'].replace('|', '/'), m['detected_by'].replace('|', '/') + (' (obsolete since fix %s: the property holds with the change applied)' % m['obsolete_since'] if 'obsolete_since' in m else '')))
 head = ("Later rounds (each agent was told the mechanisms already used for its property and asked for a different one;\n"
         "%d more seeds; those whose \"detected by\" says \"after ...\" were missed at first and led to the strengthening named there):\n\n"
         "| seed | property | mechanism and what it needs to manifest | detected by |\n|---|---|---|---|\n" % len(rows))
